@@ -24,4 +24,4 @@ func (h *Hash) Write(b []byte) (int, error) {
 	return len(b), nil
 }
 func (h *Hash) WriteString(s string) (int, error) { return h.Write([]byte(s)) }
-func (h *Hash) WriteByte(b byte) error           { h.Write([]byte{b}); return nil }
+func (h *Hash) WriteByte(b byte) error            { h.Write([]byte{b}); return nil }
